@@ -11,11 +11,11 @@ MUTANTS = [
  ("scan-ge", ("Get(S1.mem, d.k).computed > r.built", "Get(S1.mem, d.k).computed >= r.built"), "MC_BS1.tla", "MC_BS1_c09.cfg", {"NoSpuriousRerun", "NullBuildRunsNothing"}),
  ("scan-never", ("IF ~d.oo /\\ Get(S1.mem, d.k).computed > r.built", "IF FALSE /\\ Get(S1.mem, d.k).computed > r.built"), "MC_BS1.tla", "MC_BS1_quick.cfg", {"OutputsClean", "SeenCurrent"}),
  ("drop-discovered", ("Finish(S2, k, v, FALSE, ideps \\o DepsOf(disc))", "Finish(S2, k, v, FALSE, ideps)"), "MC_BS1.tla", "MC_BS1_c11.cfg", {"OutputsClean", "SeenCurrent"}),
- ("outputs-not-checked", ("/\\ \\A j \\in 1..Len(d.outs) : IsVirtual(d.outs[j]) \\/ v.i[j] = Info(F, PathOf(d.outs[j]))", "/\\ TRUE"), "MC_BS1.tla", "MC_BS1_quick.cfg", {"OutputsClean", "SeenCurrent"}),
+ ("outputs-not-checked", ("IF IsMutated(d.outs[j]) THEN (v.i[j] = 0) = ~Exists(F, PathOf(d.outs[j])) ELSE v.i[j] = Info(F, PathOf(d.outs[j]))", "TRUE"), "MC_BS1.tla", "MC_BS1_quick.cfg", {"OutputsClean", "SeenCurrent"}),
  ("failure-feeds", ('ELSE IF v.k = "FailedInput" THEN "failed"', 'ELSE IF FALSE THEN "failed"'), "MC_BS1.tla", "MC_BS1_c10.cfg", {"FailureStops"}),
  ("sig-ignored", ("ELSE IF r.sig # SigOf(k) THEN RunRule(k, S, \"SignatureChanged\", NoKey)", "ELSE IF FALSE THEN RunRule(k, S, \"SignatureChanged\", NoKey)"), "MC_BS1.tla", "MC_BS1_c09.cfg", {"OutputsClean", "SeenCurrent"}),
  ("missing-command-silent", ("IF c \\notin Cmds THEN Finish(S, k, VInvalid, TRUE, <<>>)", "IF c \\notin Cmds THEN Finish(S, k, VInvalid, FALSE, <<>>)"), "MC_BS1.tla", "MC_BS1_quick.cfg", set()),
- ("tree-children-ignored", ("[q \\in kids |-> <<F[q].s, IF F[q].t = \"dir\" THEN TreeObs(F, q, filt) ELSE <<>> >>] >>", "[q \\in kids |-> <<0, IF F[q].t = \"dir\" THEN TreeObs(F, q, filt) ELSE <<>> >>] >>"), "MC_BS2.tla", "MC_BS2_quick.cfg", set()),
+ ("tree-children-ignored", ("[q \\in kids |-> <<ChildObs(F, M, q), IF F[q].t = \"dir\" THEN TreeObsM(F, M, q, filt, TRUE) ELSE <<>> >>] >>", "[q \\in kids |-> <<0, IF F[q].t = \"dir\" THEN TreeObsM(F, M, q, filt, TRUE) ELSE <<>> >>] >>"), "MC_BS2.tla", "MC_BS2_quick.cfg", {"SeenCurrent", "OutputsClean"}),
  ("timestamp-constant", ("THEN 0 - (epoch + 2) ELSE -1", "THEN 0 - 2 ELSE -1"), "MC_BS4.tla", "MC_BS4_quick.cfg", {"RunTogether", "InPlaceOnce"}),
  ("mutated-compared", ("IF IsMutated(d.outs[j]) THEN (v.i[j] = 0) = ~Exists(F, PathOf(d.outs[j])) ELSE", "IF FALSE THEN (v.i[j] = 0) = ~Exists(F, PathOf(d.outs[j])) ELSE"), "MC_BS4.tla", "MC_BS4_quick.cfg", {"NullBuildRunsNothing", "NoSpuriousRerun"}),
  ("scan-after-ignored", ('IF NodeRec(k.n).kind = "dir" THEN EnsureAll([i \\in 1..Len(Msa(k.n)) |-> NK(Msa(k.n)[i])], S0) ELSE S0', 'IF FALSE THEN EnsureAll([i \\in 1..Len(Msa(k.n)) |-> NK(Msa(k.n)[i])], S0) ELSE S0'), "MC_BS5.tla", "MC_BS5_quick.cfg", {"WriterCurrent", "SeenCurrent"}),
